@@ -27,6 +27,20 @@ def der_op(c, rng):
     return {"fam": c["fam"], "op": op}
 
 
+def energy_mag(c):
+    """magnitude of the terms entering one energy evaluation at the current separation: max(|U|, r |U'|)"""
+    op = c["op"]
+    r = math.sqrt(sum(t * t for t in sepv(op)))
+    if c["fam"] == "ip":
+        p = fl(op, "p")
+        return abs(fl(op, "pref") * fl(op, "c1") * fl(op, "c2")) / r ** p * max(1.0, p)
+    if c["fam"] == "lj":
+        k, sg = fl(op, "k_"), fl(op, "sigma")
+        return k * (12 * (sg / r) ** 12 + 6 * (sg / r) ** 6)
+    k, r0, p = fl(op, "k_"), fl(op, "r0"), int(op["p"])
+    return k * abs(r - r0) ** p + r * k * p * abs(r - r0) ** (p - 1)
+
+
 def gen_bend(rng, n):
     out = []
     for _ in range(n):
@@ -321,7 +335,9 @@ def run(ctx, cases_override=None):
                 d1 = (E["Ep"][0] - E["Em"][0]) / (2 * h)
                 d2 = (E["Ep2"][0] - E["Em2"][0]) / (4 * h)
                 fd = (4 * d1 - d2) / 3 * sp      # Richardson: O(h^4)
-                emax = max(abs(E[r_][0]) for r_ in E)
+                # rounding error of an energy evaluation: relative to the magnitude of the terms that are subtracted
+                # (LJ: two inverse powers; displaced even power: r - r0), i.e. to max(|U|, r |U'|)
+                emax = max(max(abs(E[r_][0]) for r_ in E), energy_mag(c))
                 tol = 1e-8 * abs(fd) + 2.0 ** -50 * emax / h * sp * 8 + 1e-300
                 n_fd += 1
                 if abs(fd - main[0]) > tol + 1e-7 * abs(main[0]):
